@@ -43,6 +43,19 @@ pub fn install() {
             "batch_fail" | "publish" | "alloc_fail" => IN_BATCH_T.with(|c| c.set(false)),
             _ => {}
         }
+        match ev.kind {
+            "tick" if ev.a == 0 => { TICKS0.fetch_add(1, std::sync::atomic::Ordering::SeqCst); }
+            "batch_fail" => { BATCH_FAILS.fetch_add(1, std::sync::atomic::Ordering::SeqCst); }
+            "pin" => {
+                let stall = PIN_STALL.lock().unwrap_or_else(|e| e.into_inner()).clone();
+                if let Some((k, ms)) = stall {
+                    if ev.key == k.as_slice() && !PIN_STALLED.swap(true, std::sync::atomic::Ordering::SeqCst) {
+                        std::thread::sleep(std::time::Duration::from_millis(ms));
+                    }
+                }
+            }
+            _ => {}
+        }
         let raw = RawEv {
             seq,
             tid: tid(),
@@ -57,6 +70,19 @@ pub fn install() {
         EVENTS.lock().unwrap_or_else(|e| e.into_inner()).push(raw);
     }));
 }
+
+/// Steering state for free-running drivers (fxv coord): coordinator ticks naming worker 0, failed batches, and a
+/// one-shot stall of the reader that pins a given key.
+pub static TICKS0: std::sync::atomic::AtomicU64 = std::sync::atomic::AtomicU64::new(0);
+pub static BATCH_FAILS: std::sync::atomic::AtomicU64 = std::sync::atomic::AtomicU64::new(0);
+static PIN_STALL: Mutex<Option<(Vec<u8>, u64)>> = Mutex::new(None);
+static PIN_STALLED: std::sync::atomic::AtomicBool = std::sync::atomic::AtomicBool::new(false);
+pub fn batch_fails() -> u64 { BATCH_FAILS.load(std::sync::atomic::Ordering::SeqCst) }
+pub fn set_pin_stall(key: Vec<u8>, ms: u64) {
+    PIN_STALLED.store(false, std::sync::atomic::Ordering::SeqCst);
+    *PIN_STALL.lock().unwrap_or_else(|e| e.into_inner()) = Some((key, ms));
+}
+pub fn pin_stalled() -> bool { PIN_STALLED.load(std::sync::atomic::Ordering::SeqCst) }
 
 pub fn uninstall() {
     feoxdb::verif::uninstall();
